@@ -28,6 +28,7 @@ type gcase struct {
 	Bad         []int      // Earley first bad token index (-1 for sentences)
 	Sims        []ref.SimResult
 	StepLim     int
+	SpineReds   int // reductions of the spine sentence (0 = none)
 	Prescreened int
 	Derived     map[string]bool // inputs that are sentences by construction (too long for the Earley recognizer)
 	Job         *pipe.Job
@@ -206,12 +207,14 @@ func (c *gcase) spineSentence(r *rand.Rand, minLen []int) []int {
 		}
 		return l
 	}
-	// minimal expansion of a symbol into tokens
+	// minimal expansion of a symbol into tokens; apps counts the rules applied (= reductions of the parse)
+	apps := 0
 	var expand func(s int, depth int) []int
 	expand = func(s int, depth int) []int {
 		if !g.IsNT[s] {
 			return []int{s}
 		}
+		apps++
 		if depth > 200 {
 			return nil
 		}
@@ -280,6 +283,20 @@ func (c *gcase) spineSentence(r *rand.Rand, minLen []int) []int {
 		chain = append([]step{via[x]}, chain...)
 	}
 	n := 1100 + r.Intn(600)
+	// reductions per link: the rule itself plus what its alpha part takes (unit chains can be deep);
+	// keep the whole parse below 30 000 reductions
+	apps = 0
+	for _, x := range g.Rules[ri].Rhs[:len(g.Rules[ri].Rhs)-1] {
+		expand(x, 0)
+	}
+	perLink := apps + 1
+	if perLink > 25 {
+		return nil
+	}
+	if n*perLink > 30000 {
+		n = 30000 / perLink
+	}
+	apps = 0
 	var prefix, suffix []int
 	for _, st := range chain {
 		rhs := g.Rules[st.rule].Rhs
@@ -302,6 +319,7 @@ func (c *gcase) spineSentence(r *rand.Rand, minLen []int) []int {
 		out = append(out, alpha...)
 	}
 	out = append(out, expand(a, 0)...)
+	c.SpineReds = apps + len(chain) + n*perLink + 8
 	return append(out, suffix...)
 }
 
@@ -468,7 +486,7 @@ func (c *gcase) judgeInputs() {
 		c.Bad = append(c.Bad, bad)
 		var sim ref.SimResult
 		if c.Tab != nil && c.Clean {
-			sim = c.Tab.Sim(c.refTokens(in), 5000)
+			sim = c.Tab.Sim(c.refTokens(in), 5000+40*len(in))
 			if !sim.StepLimit && len(sim.Reds) > rmax {
 				rmax = len(sim.Reds)
 			}
@@ -485,6 +503,8 @@ func (c *gcase) judgeInputs() {
 	if c.Tab == nil || !c.Clean {
 		c.StepLim = 2000 + 8*lmax
 	}
+	// the spine sentence needs a known number of reductions (its derivation is known)
+	c.StepLim += 2 * c.SpineReds
 }
 
 // campaign configuration
